@@ -77,6 +77,10 @@ CLAIMS = {
    text="pairs of calls for the same date at two zone settings (gmt +-0.5/1/3 h; 15 degrees east with gmt + 1 h) are validated by TLC: every entry shifts by d (resp. stays) within 12 s, validity equal; known finding F1 (3-h shifts deviate up to ~17 s) is modelled as a named spec action enabled only while listed in known_findings.json",
    note="entries within 30 s of civil midnight or moved across it are skipped (adjacent solar day's event); tolerance 10 s + 2 s truncation",
    tech="TLA+ relational spec (SolarTrace) + TLC trace validation of paired public calls", ref="§5 C20"),
+ "C16": dict(
+   text="Qibla.tla defines the bearing by the east/north components of the great circle to the Kaaba (independent of the library's atan2 formula) and QiblaMC model-checks the definition's own symmetries on a grid; every recorded Qibla::new call (grid, random, date line, Kaaba meridian/antimeridian, near the Kaaba and its antipode) is validated by TLC with a cross/dot-product test, the range (-180,180], label = sign, printed text = magnitude; symmetry pairs (elevation independence, mirror, meridian 0/180, sign = side) are compared at 1e-6 degree in integers",
+   note="WEAKER THAN STATED: the vector agreement is decided to ~0.005 degree (+3e-4 degree / sin(distance to Kaaba/antipode)) because TLC integers are 32-bit; the property asks 1e-6 degree. Quadrant, atan-vs-atan2, sign, swapped-coordinate, radian/degree slips and constant errors >= 0.01 degree are caught; a 1e-3 degree constant perturbation is not",
+   tech="TLA+ spec (Qibla/FixedPoint) + TLC model checking of the definition + TLC trace validation of recorded calls", ref="§5 C16"),
 }
 NA_REASON = "check under construction in this round (DESIGN.md §8 build order); not yet claimed"
 
